@@ -155,7 +155,7 @@ def write_molden(wf, file_coeffs, ca, cb, unit, title=True, mo_digits=None):
     out = ["[Molden Format]"]
     if title:
         out += ["[Title]", " vendor file written by the independent writer"]
-    f = 1.0 if unit == "AU" else 1.0 / ANG
+    f = 1.0 if "au" in unit.lower() else 1.0 / ANG       # the unit keyword is written as AU | Angs, by some programs as (AU) | (Angs)
     out.append(f"[Atoms] {unit}")
     sym = {1: "H", 6: "C", 7: "N", 8: "O"}
     for i, (z, r) in enumerate(zip(wf["atnums"], wf["xyz"])):
@@ -313,9 +313,9 @@ def plan(run, rng):
         for i, sub in enumerate(subsets):
             # a deviation must be visible: at least one shell type on which the vendor deviates (else the file is standard)
             for fmt in ("molden", "molekel"):
-                combos = [("AU" if (i % 2 == 0) else "Angs", bool(i % 2))]
+                combos = [(["AU", "Angs", "(AU)", "(Angs)", "ANGS", "au"][i % 6], bool(i % 2))]
                 if run.thorough():
-                    combos = [(u, r) for u in ("AU", "Angs") for r in (False, True)]
+                    combos = [(u, r) for u in ("AU", "Angs", "(AU)", "(Angs)") for r in (False, True)]
                 for k, (unit, unres) in enumerate(combos):
                     thr = [1e-4, 1e-5, 1e-3][(i + k) % 3]
                     tnames = list(sub) + ([rng.choice(sub)] if rng.random() < 0.4 else [])
